@@ -39,6 +39,14 @@ PB == <<40, 97, 41, 98, 124, 97>>                        \* (a)b|a
 PBS == <<92, 92>>                                        \* \\   an escaped backslash, directly before the closing slash
 PBS2 == <<98, 92, 92>>                                   \* b\\
 PBS3 == <<92, 92, 40, 98, 124, 99, 41>>                  \* \\(b|c)
+\* group counts at the boundaries of the decimal digit counts: 9, 10, 11 groups ((a)(b)(c) repeated) and 100 (99 empty groups, then (a))
+ABC == <<97, 98, 99>>
+RECURSIVE PG(_, _)
+PG(n, i) == IF i > n THEN <<>> ELSE <<40, ABC[((i - 1) % 3) + 1], 41>> \o PG(n, i + 1)
+RECURSIVE PEmpty(_)
+PEmpty(n) == IF n = 0 THEN <<>> ELSE <<40, 41>> \o PEmpty(n - 1)
+P100 == PEmpty(99) \o <<40, 97, 41>>
+DigitTemplates == {<<36, 49, 48>>, <<36, 49, 49>>, <<36, 57>>, <<60, 36, 49, 124, 36, 57, 124, 36, 49, 48, 124, 36, 49, 49, 124, 36, 49, 50, 62>>, <<36, 49, 48, 48>>, <<36, 57, 57>>, <<36, 48, 49, 48>>, <<36, 57, 48, 120>>, <<36, 49, 48, 48, 48>>, <<60, 36, 49, 48, 124, 36, 49, 48, 48, 124, 36, 49, 48, 49, 62>>}
 Patterns == {P0, P1, P2, P3, PE, PA, PI, PN, PQ, PL, PL1, PL2, PB, PBS, PBS2, PBS3}
 
 Subjects == {<<97, 98, 97>>, <<120, 97, 98, 120>>, <<97, 98, 97, 98>>, <<>>, <<97>>, <<97, 98>>, <<97, 98, 99>>, <<99, 97, 98, 97>>, <<97, 98, 99, 97, 98, 99, 97, 98, 99, 97, 98, 99>>, <<120, 65, 97, 233, 97, 98>>,
@@ -57,6 +65,8 @@ Init == /\ \/ \E t \in Templates, p \in {P0, P1, P2, P3, P12, PQ, PB} : case = M
            \/ \E t \in ExtraTemplates \cup {<<36, 49>>, <<36, 57>>, <<36, 49, 49>>, <<60, 36, 49, 48, 124, 36, 49, 49, 124, 36, 49, 50, 124, 36, 49, 51, 62>>} :
                     case = MkCase(F("replace", <<S, RX(P12o), NStr(t)>>), Str(<<97, 98, 99, 97, 98, 99, 97, 98, 99, 97, 120>>))
            \* one regex value applied to several subjects: every match object keeps its own match, groups and next chain
+           \/ \E t \in DigitTemplates, p \in {PG(9, 1), PG(10, 1), PG(11, 1), P12, P100} :
+                    case = MkCase(F("replace", <<S, RX(p), NStr(t)>>), Str(<<97, 98, 99, 97, 98, 99, 97, 98, 99, 97, 98, 99>>))
            \/ \E p \in {P1, P2, PN, PB, <<97, 40, 46, 41>>}, s1 \in {<<97, 98>>, <<97, 98, 97, 99>>}, s2 \in {<<97, 99>>, <<120, 97, 100, 97, 98>>} :
                     \/ case = MkCase(NBlock(<<NAssign("r", RX(p)), NAssign("x", NCall(NVar("r"), <<NStr(s1)>>)), NAssign("y", NCall(NVar("r"), <<NStr(s2)>>)),
                                              NArray(<<NVar("x"), NVar("y")>>)>>), Str(<<>>))
